@@ -17,6 +17,9 @@ pub enum EOp {
     UpdateMeta { id: u64 },
     Bulk { docs: Vec<(u64, Vec<f32>)> },
     Flush,
+    /// FAULT (not an API call): the canonical cold-tier record of `id` is lost while its hot-tier mirror
+    /// survives (`engine.cold_tier().delete(id)`); the next drain repairs it from the mirror (drift repair)
+    ColdLoss { id: u64 },
 }
 
 #[derive(Clone, Debug)]
@@ -60,6 +63,7 @@ pub fn run(h: &Hist) -> RunOut {
     )
     .expect("engine");
     let mut live: BTreeMap<u64, Vec<f32>> = BTreeMap::new();
+    let mut lost: BTreeMap<u64, Vec<f32>> = BTreeMap::new();
     let mut out = RunOut { trace: vec![], failure: None, hits: 0, hits_after_write: 0, searches: 0, ref_mismatch: 0 };
     let mut writes = 0u64;
     let mut last_search: HashMap<(u64, Vec<u32>), u64> = HashMap::new();
@@ -69,6 +73,7 @@ pub fn run(h: &Hist) -> RunOut {
                 let r = engine.insert(*id, v.clone(), meta("a"));
                 if r.is_ok() {
                     live.insert(*id, v.clone());
+                    lost.remove(id);
                 }
                 writes += 1;
                 out.trace.push(json!({"insert": id, "ok": r.is_ok()}));
@@ -77,6 +82,7 @@ pub fn run(h: &Hist) -> RunOut {
                 let r = engine.delete(*id);
                 if matches!(r, Ok(true)) {
                     live.remove(id);
+                    lost.remove(id);
                 }
                 writes += 1;
                 out.trace.push(json!({"delete": id, "res": r.ok()}));
@@ -92,6 +98,7 @@ pub fn run(h: &Hist) -> RunOut {
                 if r.is_ok() {
                     for (id, v) in docs {
                         live.insert(*id, v.clone());
+                        lost.remove(id);
                     }
                 }
                 writes += 1;
@@ -99,7 +106,31 @@ pub fn run(h: &Hist) -> RunOut {
             }
             EOp::Flush => {
                 let r = engine.flush_hot_tier(true);
-                out.trace.push(json!({"flush": r.ok()}));
+                // drift repair: a lost canonical record is restored from its surviving mirror
+                let mut repaired = vec![];
+                for (id, v) in lost.clone() {
+                    if engine.cold_tier().exists(id) {
+                        if !live.contains_key(&id) {
+                            live.insert(id, v);
+                            repaired.push(id);
+                        }
+                        lost.remove(&id);
+                    }
+                }
+                if !repaired.is_empty() {
+                    writes += 1;
+                }
+                out.trace.push(json!({"flush": r.ok(), "repaired_from_mirror": repaired}));
+            }
+            EOp::ColdLoss { id } => {
+                let r = engine.cold_tier().delete(*id);
+                if matches!(r, Ok(true)) {
+                    if let Some(v) = live.remove(id) {
+                        lost.insert(*id, v);
+                    }
+                    writes += 1;
+                }
+                out.trace.push(json!({"cold_loss": id, "res": r.ok()}));
             }
             EOp::Search { scope, q, k } => {
                 out.searches += 1;
@@ -199,7 +230,20 @@ pub fn gen(r: &mut Rng) -> Hist {
             14..=16 => ops.push(EOp::Delete { id: r.range(1, 8) }),
             17 => ops.push(EOp::UpdateMeta { id: r.range(1, 8) }),
             18 => ops.push(EOp::Bulk { docs: (0..r.range(1, 3)).map(|_| (r.range(1, 10), r.pick(&vecs).clone())).collect() }),
-            _ => ops.push(EOp::Flush),
+            _ => {
+                if r.chance(1, 2) {
+                    ops.push(EOp::Flush)
+                } else {
+                    // drift: lose the canonical record of a document, search around it, let a drain repair it
+                    let id = r.range(1, 8);
+                    ops.push(EOp::ColdLoss { id });
+                    ops.push(EOp::Search { scope: 0, q: r.pick(&queries).clone(), k: r.range(1, 3) as usize });
+                    if r.chance(2, 3) {
+                        ops.push(EOp::Flush);
+                        ops.push(EOp::Search { scope: 0, q: r.pick(&queries).clone(), k: r.range(1, 3) as usize });
+                    }
+                }
+            }
         }
     }
     Hist { dim, cap, ops }
@@ -213,6 +257,7 @@ pub fn hist_json(h: &Hist) -> Value {
         EOp::UpdateMeta { id } => json!({"op": "update_metadata", "id": id}),
         EOp::Bulk { docs } => json!({"op": "bulk_load", "docs": docs}),
         EOp::Flush => json!({"op": "flush"}),
+        EOp::ColdLoss { id } => json!({"op": "cold_loss", "id": id}),
     }).collect();
     json!({"stream": "E", "dim": h.dim, "capacity": h.cap, "metric": "euclidean", "threshold": 1.0, "ops": ops})
 }
@@ -227,6 +272,7 @@ pub fn hist_from_json(v: &Value) -> Hist {
         "insert" => EOp::Insert { id: o["id"].as_u64().unwrap(), v: fv(&o["v"]) },
         "delete" => EOp::Delete { id: o["id"].as_u64().unwrap() },
         "update_metadata" => EOp::UpdateMeta { id: o["id"].as_u64().unwrap() },
+        "cold_loss" => EOp::ColdLoss { id: o["id"].as_u64().unwrap() },
         "bulk_load" => EOp::Bulk { docs: o["docs"].as_array().unwrap().iter().map(|d| (d[0].as_u64().unwrap(), fv(&d[1]))).collect() },
         _ => EOp::Flush,
     }).collect();
